@@ -38,7 +38,7 @@ func usedKeys(c HCase) []int {
 	var out []int
 	for _, op := range c.Ops {
 		switch op.Op {
-		case "put", "get", "rem":
+		case "put", "putnil", "get", "rem":
 			if !seen[op.K] {
 				seen[op.K] = true
 				out = append(out, op.K)
@@ -181,6 +181,9 @@ func runHash(c HCase) *h.Result {
 		want := "(nil nil)"
 		if i := find(k); i >= 0 {
 			want = fmt.Sprintf("(fix:%d t)", model[i].val)
+			if model[i].val < 0 {
+				want = "(nil t)" // nil was stored: the key is present
+			}
 		}
 		if got := sx.Typed(v); got != want {
 			return fmt.Sprintf("(gethash k%d h) gives %s, the value last stored under an equivalent key gives %s", k, got, want)
@@ -210,8 +213,32 @@ func runHash(c HCase) *h.Result {
 		if len(tr) != len(model) {
 			return fmt.Sprintf("maphash visits %d entries, there are %d distinct keys (visited: %s)", len(tr), len(model), ev.TraceString())
 		}
+		nils := 0
+		for _, e := range model {
+			if e.val < 0 {
+				nils++
+			}
+		}
+		if seen["nil"] != nils {
+			return fmt.Sprintf("maphash visits %d entries whose value is nil, %d were stored (visited: %s)", seen["nil"], nils, ev.TraceString())
+		}
 		for _, e := range model {
 			val := strconv.Itoa(e.val)
+			if e.val < 0 {
+				// one of the visited nil entries carries an equivalent key
+				ok := false
+				for _, te := range tr {
+					for j := 0; j < n && te.Val == "nil"; j++ {
+						if eqv[e.key][j] && sx.Text(objs[j]) == te.ID {
+							ok = true
+						}
+					}
+				}
+				if !ok {
+					return fmt.Sprintf("maphash does not visit the entry stored with value nil under k%d (visited: %s)", e.key, ev.TraceString())
+				}
+				continue
+			}
 			if seen[val] != 1 {
 				return fmt.Sprintf("maphash visits the entry with value %s %d times (visited: %s)", val, seen[val], ev.TraceString())
 			}
@@ -253,6 +280,15 @@ func runHash(c HCase) *h.Result {
 				model[i].val = val
 			} else {
 				model = append(model, entry{op.K, val})
+			}
+		case "putnil":
+			log = append(log, fmt.Sprintf("put k%d nil", op.K))
+			_, msg = check(fmt.Sprintf("(setf (gethash k%d h) nil)", op.K))
+			hit(op.K)
+			if i := find(op.K); i >= 0 {
+				model[i].val = -1
+			} else {
+				model = append(model, entry{op.K, -1})
 			}
 		case "get":
 			log = append(log, fmt.Sprintf("get k%d", op.K))
@@ -351,6 +387,8 @@ func genHash(rt *rapid.T) HCase {
 	for i := 0; i < nops; i++ {
 		op := HOp{}
 		switch w := rapid.IntRange(0, 99).Draw(rt, "op"); {
+		case w < 8:
+			op.Op = "putnil" // nil is a value like any other: the key is present afterwards
 		case w < 35:
 			op.Op = "put"
 		case w < 65:
@@ -364,7 +402,7 @@ func genHash(rt *rapid.T) HCase {
 		default:
 			op.Op = "clr"
 		}
-		if op.Op == "put" || op.Op == "get" || op.Op == "rem" {
+		if op.Op == "put" || op.Op == "putnil" || op.Op == "get" || op.Op == "rem" {
 			op.K = rapid.IntRange(0, nk-1).Draw(rt, "k")
 		}
 		c.Ops = append(c.Ops, op)
@@ -386,7 +424,8 @@ func testHash(t *testing.T) {
 	// every pair of universe leaves / small structures as two keys, one fixed history that stores through
 	// the first, reads and removes through the second, for every :test
 	script := []HOp{{Op: "put", K: 0}, {Op: "get", K: 1}, {Op: "count"}, {Op: "put", K: 1}, {Op: "get", K: 0}, {Op: "map"},
-		{Op: "rem", K: 0}, {Op: "get", K: 1}, {Op: "put", K: 1}, {Op: "put", K: 0}, {Op: "count"}, {Op: "clr"}, {Op: "get", K: 0}}
+		{Op: "rem", K: 0}, {Op: "get", K: 1}, {Op: "put", K: 1}, {Op: "put", K: 0}, {Op: "count"}, {Op: "putnil", K: 1}, {Op: "get", K: 0}, {Op: "count"}, {Op: "map"},
+		{Op: "rem", K: 0}, {Op: "count"}, {Op: "get", K: 1}, {Op: "putnil", K: 0}, {Op: "clr"}, {Op: "get", K: 0}}
 	h.Enumerate(t, hashGrid, func(yield func(HCase) bool) {
 		for ti, test := range hashTests {
 			for _, x := range universe {
